@@ -354,9 +354,8 @@ def po3(facts, rep):
             elif eng_po.orphan_match(key, AUDIT, present):
                 k0 = eng_po.orphan_match(key, AUDIT, present)
                 rep.audited(rule, key, o['where'], 'arithmetic of the removed function %s, now written in its caller: %s' % (k0.split('|')[0], AUDIT[k0]))
-            elif o.get('ty', '').startswith('u') and eng_po.implied_partial_sum(key, AUDIT):
-                k0 = eng_po.implied_partial_sum(key, AUDIT)
-                rep.audited(rule, key, o['where'], 'partial sum of unsigned terms of the audited sum `%s`: %s' % (k0.split('|')[2], AUDIT[k0]))
+            elif eng_po.implied(key, AUDIT, o):
+                rep.audited(rule, key, o['where'], eng_po.implied(key, AUDIT, o)[1])
             else:
                 rep.bad(rule, key, o['where'], 'undischarged %s obligation: %s' % (o['kind'], o['detail']))
     rep.floor(rule, 'obligations enumerated', total, 15)
